@@ -268,8 +268,134 @@ def boundary_e2e():
     return out
 
 
+# ----------------------------------------------------------------------------- wiring, repeated
+def _wiring(eng):
+    out = []
+    for name, f in sorted(eng._builder._metric_fetchers.items()):  # pylint: disable=protected-access
+        fb = f._fallback                                           # pylint: disable=protected-access
+        ids = None if fb is None else sorted(fb._formula_generator._config.component_ids)  # pylint: disable=protected-access
+        out.append([name, bool(f._nones_are_zeros), ids])          # pylint: disable=protected-access
+    return out
+
+
+def run_wiring(case):
+    """Generate the same fallback-capable formulas `reps` times (different namespaces) on ONE
+    component-graph object.  case: {"roots": tree (format of harness/graph.py), "reps": n}"""
+    from types import SimpleNamespace
+    from harness import graph as G
+    I = G._imports()                                               # pylint: disable=protected-access
+    g = G.build_graph(case["roots"])
+    I.cm._CONNECTION_MANAGER = SimpleNamespace(component_graph=g, api_client=None)  # pylint: disable=protected-access
+    FG = I.FG
+    bats, pv, ev = G.device_ids(case["roots"])
+    plan = {"pv": (FG.PVPowerFormula, pv), "ev": (FG.EVChargerPowerFormula, ev), "battery": (FG.BatteryPowerFormula, bats)}
+    obs = {}
+    try:
+        for kind, (cls, ids) in plan.items():
+            if not ids:
+                continue
+            runs = []
+            for r in range(case["reps"]):
+                reg = I.ChannelRegistry(name="r")
+                ch = I.Broadcast(name="req")
+                try:
+                    eng = cls(f"ns{r}", reg, ch.new_sender(),
+                              FG.FormulaGeneratorConfig(component_ids=set(ids), allow_fallback=True)).generate()
+                    runs.append({"formula": str(eng), "terms": _wiring(eng)})
+                except Exception as e:  # pylint: disable=broad-except
+                    runs.append({"error": type(e).__name__})
+            obs[kind] = runs
+    finally:
+        I.cm._CONNECTION_MANAGER = None                            # pylint: disable=protected-access
+    return obs
+
+
+def expected_wiring(roots, kind):
+    """devices requested by id: a meter whose successors are exactly requested devices of the kind is the
+    primary term and they are its fallback; any other requested device is its own term, no fallback"""
+    from harness import graph as G
+    k = {"pv": "P"}[kind]
+    terms = []
+    covered = set()
+    grid_meter = roots[0]["id"] if len(roots) == 1 and roots[0]["k"] == "M" else None   # the grid's only successor
+    for n in G.walk(roots):
+        if n["k"] == "M" and n["id"] != grid_meter and n["kids"] and all(c["k"] == k for c in n["kids"]):
+            terms.append([f"#{n['id']}", False, sorted(c["id"] for c in n["kids"])])
+            covered |= {c["id"] for c in n["kids"]}
+    for n in G.walk(roots):
+        if n["k"] == k and n["id"] not in covered:
+            terms.append([f"#{n['id']}", True, None])
+    return sorted(terms)
+
+
+class WiringStream(Stream):
+    """the same fallback-capable formula generated several times on one graph object"""
+    name = "wiring"
+    coq_header = FB.HEADER
+    n_quick = 60
+    n_thorough = 600
+
+    def gen(self, rng, tier):
+        for _ in range(self.n_quick if tier == "quick" else self.n_thorough):
+            nid = [1]
+
+            def fresh():
+                nid[0] += 1
+                return nid[0]
+            roots = []
+            for _m in range(rng.randint(1, 3)):
+                kind = rng.choice("PPEB")
+                def dev():
+                    d = {"k": kind, "id": fresh()}
+                    if kind == "B":
+                        d["bats"] = [fresh() for _ in range(rng.randint(1, 2))]
+                    return d
+                if rng.random() < 0.8:
+                    m = {"k": "M", "id": fresh(), "kids": []}
+                    m["kids"] = [dev() for _ in range(rng.randint(1, 3))]
+                    roots.append(m)
+                else:
+                    roots.append(dev())
+            yield {"roots": roots, "reps": rng.choice([2, 2, 3])}
+
+    def run_impl(self, case):
+        return run_wiring(case)
+
+    def to_coq(self, case, obs):
+        return None
+
+    def key(self, case, obs):
+        return json.dumps(case["roots"])
+
+    def labels(self, case, obs):
+        out = [f"reps={case['reps']}"] + [f"formula={k}" for k in sorted(obs)]
+        if any(t[2] is not None for runs in obs.values() for r in runs[:1] for t in r.get("terms", [])):
+            out.append("has_fallback_term")
+        return out
+
+    def shrink(self, case):
+        for i in range(len(case["roots"])):
+            if len(case["roots"]) > 1:
+                yield {**case, "roots": case["roots"][:i] + case["roots"][i + 1:]}
+        if case["reps"] > 2:
+            yield {**case, "reps": 2}
+
+    def oracle(self, case, obs):
+        probs = []
+        for kind, runs in sorted(obs.items()):
+            for r, run in enumerate(runs[1:], 1):
+                if run != runs[0]:
+                    probs.append(f"repeat: {kind} formula generated the {r + 1}. time on the same graph is {run} but the first was {runs[0]}")
+                    break
+            if kind == "pv" and "terms" in runs[0]:      # (the EV charger formula has no fallback wiring)
+                want = expected_wiring(case["roots"], kind)
+                if sorted(runs[0]["terms"]) != want:
+                    probs.append(f"wiring: {kind} formula terms {runs[0]['terms']} but the topology asks for {want}")
+        return [{"what": p, "finding": None} for p in probs]
+
+
 def streams():
-    return [FetcherStream(), E2EStream()]
+    return [FetcherStream(), E2EStream(), WiringStream()]
 
 
 ASSUMPTIONS = [
@@ -283,6 +409,6 @@ TRUSTED = ["async_solipsism virtual-time loop", "frequenz.channels (Broadcast, R
 
 META = {
     "technique": "Coq proof about a Kahn-style functional model of MetricFetcher with fallback (case analysis of one fetch_next + induction over the catch-up loop and over the primary stream) + differential correspondence: real MetricFetcher over scripted receivers, and real FormulaEngine (A+B, A with scripted or real FallbackFormulaMetricFetcher) over Broadcast channels on async_solipsism, vs the model evaluated in Coq",
-    "level_text": "Machine-checked theorems (closed under the global context) on the model: once the fallback is synchronised (fallback_ts <= primary_ts) every later primary sample at T yields primary(T) if valid else fallback(T), stamped T; a valid primary is always returned unchanged; after the first failure an invalid primary is passed through for at most (fallback start lag in steps)+1 timestamps; after the primary stream fails the term is exactly the rest of the fallback stream. The model is tied to the code by exact comparison (inside Coq) with the real MetricFetcher on fault words over {valid, None, NaN, +-inf} on both streams, receiver errors / stopped streams at any point and random delivery interleavings, and end-to-end through a real FormulaEngine; the property is judged directly on the engine's outputs (values encode the contributing samples).",
+    "level_text": "Machine-checked theorems (closed under the global context) on the model: once the fallback is synchronised (fallback_ts <= primary_ts) every later primary sample at T yields primary(T) if valid else fallback(T), stamped T; a valid primary is always returned unchanged; after the first failure an invalid primary is passed through for at most (fallback start lag in steps)+1 timestamps; after the primary stream fails the term is exactly the rest of the fallback stream. The model is tied to the code by exact comparison (inside Coq) with the real MetricFetcher on fault words over {valid, None, NaN, +-inf} on both streams, receiver errors / stopped streams at any point and random delivery interleavings, and end-to-end through a real FormulaEngine; the property is judged directly on the engine's outputs (values encode the contributing samples). A third stream generates the same fallback-capable formulas (PV, battery, EV) two or three times on ONE component-graph object and requires identical primary/fallback wiring each time (oracle only, no model twin).",
     "level_note": "Partial: delivery/blocking is runtime (Kahn assumption tested, not proved). Known finding kept: when the primary STREAM fails, fetch_next returns fallback.receive() without any timestamp synchronisation, so unless the fallback happens to stand exactly at the next timestamp the term (and the formula stamp) are shifted against the other terms for ever (C19-stream-failure-unaligned, trigger coded in the oracle; theorem C19_closed_partial states what does hold). Fixed on the way: `except ReceiverError[Any]` raised TypeError so no stream failure was ever handled.",
 }
